@@ -1,1 +1,1350 @@
-From Verif Require Import Lib.Base Model.C14_Subscriptions.
+(* C14 -- lemmas.  The theorems of Properties/C14.v are instances of the lemmas at the end of each
+   part. *)
+From Verif Require Import Lib.Base Model.C14_Subscriptions Model.C14_Spec.
+From Coq Require Import ZifyBool ZifyN ZifyNat.
+From Coq Require Import Sorting.Sorted.
+
+(* =========================================================================================== *)
+(* Part 1.  Aggregator selection arithmetic.                                                   *)
+
+Lemma land_low_shiftl : forall a x n, a < 2 ^ n -> N.land a (N.shiftl x n) = 0.
+Proof.
+  intros a x n H. apply N.bits_inj_0. intro m. rewrite N.land_spec.
+  destruct (N.lt_ge_cases m n) as [L|G].
+  - rewrite N.shiftl_spec_low by exact L. apply andb_false_r.
+  - replace (N.testbit a m) with false; [reflexivity|].
+    symmetry. destruct (N.eq_dec a 0) as [->|NZ]; [apply N.bits_0|].
+    apply N.bits_above_log2. apply N.log2_lt_pow2; [lia|].
+    eapply N.lt_le_trans; [exact H|]. apply N.pow_le_mono_r; lia.
+Qed.
+
+Lemma lor_shiftl_add : forall a x n, a < 2 ^ n -> N.lor a (N.shiftl x n) = a + x * 2 ^ n.
+Proof.
+  intros a x n H.
+  rewrite <- N.lxor_lor by (apply land_low_shiftl; exact H).
+  rewrite <- N.add_nocarry_lxor by (apply land_low_shiftl; exact H).
+  rewrite N.shiftl_mul_pow2. reflexivity.
+Qed.
+
+Lemma lor_shiftl8_add : forall a x, a < 256 -> N.lor a (N.shiftl x 8) = a + 256 * x.
+Proof. intros a x H. rewrite lor_shiftl_add by exact H. change (2 ^ 8) with 256. lia. Qed.
+
+Lemma le64_bytes : forall b0 b1 b2 b3 b4 b5 b6 b7 rest,
+  b0 < 256 -> b1 < 256 -> b2 < 256 -> b3 < 256 -> b4 < 256 -> b5 < 256 -> b6 < 256 -> b7 < 256 ->
+  le64 (b0 :: b1 :: b2 :: b3 :: b4 :: b5 :: b6 :: b7 :: rest) =
+  bytes_to_uint64 [b0; b1; b2; b3; b4; b5; b6; b7].
+Proof.
+  intros b0 b1 b2 b3 b4 b5 b6 b7 rest H0 H1 H2 H3 H4 H5 H6 H7.
+  assert (E : le64 (b0 :: b1 :: b2 :: b3 :: b4 :: b5 :: b6 :: b7 :: rest) =
+    N.lor b0 (N.shiftl (N.lor b1 (N.shiftl (N.lor b2 (N.shiftl (N.lor b3 (N.shiftl (N.lor b4
+      (N.shiftl (N.lor b5 (N.shiftl (N.lor b6 (N.shiftl b7 8)) 8)) 8)) 8)) 8)) 8)) 8)).
+  { unfold le64. rewrite !N.shiftl_lor, !N.shiftl_shiftl. reflexivity. }
+  rewrite E. rewrite !lor_shiftl8_add by assumption.
+  unfold bytes_to_uint64, fold_right. lia.
+Qed.
+
+Lemma bytes_to_uint64_bound : forall bs, bytes bs -> bytes_to_uint64 bs < 256 ^ N.of_nat (length bs).
+Proof.
+  induction bs as [|b bs IH]; intro H.
+  - cbn. lia.
+  - inversion H as [|? ? Hb Hbs]; subst. specialize (IH Hbs).
+    change (bytes_to_uint64 (b :: bs)) with (b + 256 * bytes_to_uint64 bs).
+    replace (N.of_nat (length (b :: bs))) with (N.succ (N.of_nat (length bs))) by (cbn [length]; lia).
+    rewrite N.pow_succ_r'. lia.
+Qed.
+
+Lemma max1 : forall m, (if m =? 0 then 1 else m) = N.max 1 m.
+Proof. intro m. destruct (N.eqb_spec m 0); lia. Qed.
+
+Lemma hash8_split : forall h : list N, (8 <= length h)%nat ->
+  exists b0 b1 b2 b3 b4 b5 b6 b7 rest, h = b0 :: b1 :: b2 :: b3 :: b4 :: b5 :: b6 :: b7 :: rest.
+Proof.
+  intros h H.
+  destruct h as [|b0 [|b1 [|b2 [|b3 [|b4 [|b5 [|b6 [|b7 rest]]]]]]]]; cbn in H; try lia.
+  repeat eexists.
+Qed.
+
+Lemma le64_spec : forall h, bytes h -> (8 <= length h)%nat -> le64 h = bytes_to_uint64 (firstn 8 h).
+Proof.
+  intros h Hb Hl. destruct (hash8_split h Hl) as (b0 & b1 & b2 & b3 & b4 & b5 & b6 & b7 & rest & ->).
+  unfold bytes in Hb.
+  repeat match goal with H : Forall _ (_ :: _) |- _ => inversion H; clear H; subst end.
+  rewrite le64_bytes by assumption. reflexivity.
+Qed.
+
+Lemma le64_lt_two64 : forall h, bytes h -> (8 <= length h)%nat -> le64 h < two64.
+Proof.
+  intros h Hb Hl. rewrite le64_spec by assumption.
+  assert (Hf : bytes (firstn 8 h)).
+  { unfold bytes in *. rewrite Forall_forall in *. intros x Hx. apply Hb.
+    rewrite <- (firstn_skipn 8 h). apply in_or_app. left. exact Hx. }
+  pose proof (bytes_to_uint64_bound _ Hf) as B.
+  rewrite firstn_length_le in B by exact Hl. exact B.
+Qed.
+
+Lemma is_aggregator_spec_lemma : forall len target h,
+  bytes h -> (8 <= length h)%nat -> is_aggregator len target h = spec_is_aggregator len target h.
+Proof.
+  intros len target h Hb Hl. unfold is_aggregator, spec_is_aggregator.
+  rewrite max1, le64_spec by assumption. reflexivity.
+Qed.
+
+(* only the first 8 bytes of the digest are read, by the code and by the specification *)
+Lemma le64_prefix : forall h, le64 (firstn 8 h) = le64 h.
+Proof.
+  intro h.
+  destruct h as [|b0 [|b1 [|b2 [|b3 [|b4 [|b5 [|b6 [|b7 rest]]]]]]]]; reflexivity.
+Qed.
+
+Lemma is_aggregator_prefix : forall len target h,
+  is_aggregator len target (firstn 8 h) = is_aggregator len target h.
+Proof. intros. unfold is_aggregator. rewrite le64_prefix. reflexivity. Qed.
+
+Lemma spec_is_aggregator_prefix : forall len target h,
+  spec_is_aggregator len target (firstn 8 h) = spec_is_aggregator len target h.
+Proof. intros. unfold spec_is_aggregator. rewrite firstn_firstn. reflexivity. Qed.
+
+(* the selection really depends on the committee size only through size / target: every committee
+   smaller than twice the target makes every validator an aggregator *)
+Lemma small_committee_all_aggregate : forall len target h,
+  len < 2 * target -> is_aggregator len target h = true.
+Proof.
+  intros len target h H. unfold is_aggregator. rewrite max1.
+  assert (len / target <= 1).
+  { destruct (N.eq_dec target 0) as [->|NZ]; [cbn; destruct len; cbn; lia|].
+    assert (len / target < 2) by (apply N.div_lt_upper_bound; lia). lia. }
+  replace (N.max 1 (len / target)) with 1 by lia. rewrite N.mod_1_r. reflexivity.
+Qed.
+
+(* =========================================================================================== *)
+(* Part 2.  Association lists: find_sub / put.                                                 *)
+
+Lemma sub_key_eqb_iff : forall s c e, sub_key_eqb s c e = true <-> skey e = (s, c).
+Proof.
+  intros s c e. unfold sub_key_eqb, skey. rewrite andb_true_iff, !N.eqb_eq. split.
+  - intros [-> ->]. reflexivity.
+  - intro H. injection H as -> ->. split; reflexivity.
+Qed.
+
+Lemma same_key_iff : forall s c d, same_key s c d = true <-> dkey d = (s, c).
+Proof.
+  intros s c d. unfold same_key, dkey. rewrite andb_true_iff, !N.eqb_eq. split.
+  - intros [-> ->]. reflexivity.
+  - intro H. injection H as -> ->. split; reflexivity.
+Qed.
+
+Lemma sub_key_eqb_mk_sub : forall s c t L d, sub_key_eqb s c (mk_sub t L d) = same_key s c d.
+Proof. reflexivity. Qed.
+
+Lemma find_sub_put : forall s c e info,
+  find_sub s c (put e info) = if sub_key_eqb s c e then Some e else find_sub s c info.
+Proof.
+  intros s c e info. unfold find_sub. induction info as [|x info IH]; cbn [put find].
+  - destruct (sub_key_eqb s c e); reflexivity.
+  - destruct (sub_key_eqb (s_slot e) (s_comm e) x) eqn:Ex; cbn [find].
+    + apply sub_key_eqb_iff in Ex.
+      destruct (sub_key_eqb s c e) eqn:Ee; [reflexivity|].
+      destruct (sub_key_eqb s c x) eqn:Ey; [|reflexivity].
+      apply sub_key_eqb_iff in Ey. rewrite Ex in Ey. unfold skey in Ee.
+      assert (sub_key_eqb s c e = true) by (apply sub_key_eqb_iff; unfold skey; congruence).
+      congruence.
+    + destruct (sub_key_eqb s c x) eqn:Ey.
+      * destruct (sub_key_eqb s c e) eqn:Ee; [|reflexivity].
+        apply sub_key_eqb_iff in Ey, Ee.
+        assert (sub_key_eqb (s_slot e) (s_comm e) x = true).
+        { apply sub_key_eqb_iff. rewrite Ey. unfold skey in Ee. congruence. }
+        congruence.
+      * exact IH.
+Qed.
+
+Lemma find_sub_some : forall s c info e,
+  find_sub s c info = Some e -> In e info /\ s_slot e = s /\ s_comm e = c.
+Proof.
+  intros s c info e H. unfold find_sub in H. apply find_some in H as [Hi Hk].
+  apply sub_key_eqb_iff in Hk. unfold skey in Hk. injection Hk as <- <-. auto.
+Qed.
+
+Lemma find_sub_none_iff : forall s c info, find_sub s c info = None <-> ~ In (s, c) (map skey info).
+Proof.
+  intros s c info. unfold find_sub. induction info as [|x info IH]; cbn [find map In].
+  - tauto.
+  - destruct (sub_key_eqb s c x) eqn:E.
+    + apply sub_key_eqb_iff in E. split; [discriminate|]. intro H. exfalso. apply H. left. exact E.
+    + rewrite IH. split.
+      * intros H [H1|H1]; [|tauto]. apply sub_key_eqb_iff in H1. congruence.
+      * tauto.
+Qed.
+
+Lemma find_sub_in_nodup : forall info e,
+  NoDup (map skey info) -> In e info -> find_sub (s_slot e) (s_comm e) info = Some e.
+Proof.
+  intros info e. unfold find_sub. induction info as [|x info IH]; cbn [map find In]; intros ND Hi.
+  - destruct Hi.
+  - inversion ND as [|? ? Hn ND']; subst. destruct Hi as [->|Hi].
+    + replace (sub_key_eqb (s_slot e) (s_comm e) e) with true; [reflexivity|].
+      symmetry. apply sub_key_eqb_iff. reflexivity.
+    + destruct (sub_key_eqb (s_slot e) (s_comm e) x) eqn:E.
+      * apply sub_key_eqb_iff in E. exfalso. apply Hn. rewrite E.
+        change (s_slot e, s_comm e) with (skey e). apply in_map. exact Hi.
+      * apply IH; assumption.
+Qed.
+
+Lemma put_keys : forall e info,
+  map skey (put e info) = if find_sub (s_slot e) (s_comm e) info then map skey info
+                          else map skey info ++ [skey e].
+Proof.
+  intros e info. unfold find_sub. induction info as [|x info IH]; cbn [put find map app].
+  - reflexivity.
+  - destruct (sub_key_eqb (s_slot e) (s_comm e) x) eqn:E; cbn [map].
+    + apply sub_key_eqb_iff in E. unfold skey at 1. rewrite <- E. reflexivity.
+    + rewrite IH. destruct (find _ info); reflexivity.
+Qed.
+
+Lemma put_nodup : forall e info, NoDup (map skey info) -> NoDup (map skey (put e info)).
+Proof.
+  intros e info ND. rewrite put_keys.
+  destruct (find_sub (s_slot e) (s_comm e) info) eqn:F; [exact ND|].
+  apply find_sub_none_iff in F.
+  apply NoDup_rev in ND. rewrite <- (rev_involutive (_ ++ _)). apply NoDup_rev.
+  rewrite rev_app_distr. cbn. constructor; [|exact ND].
+  rewrite <- in_rev. exact F.
+Qed.
+
+(* =========================================================================================== *)
+(* Part 3.  What calculateSubscriptionInfo records for one (slot, committee).                  *)
+
+(* one validator of the committee, at the level of the committee's entry *)
+Definition estep (t : N) (L : list duty) (o : option sub) (d : duty) : option sub :=
+  match o with
+  | Some e => if s_agg e then o else Some (mk_sub t L d)
+  | None => Some (mk_sub t L d)
+  end.
+
+Lemma find_add_member : forall t L s c info d,
+  find_sub s c (add_member t L info d) =
+  if same_key s c d then estep t L (find_sub s c info) d else find_sub s c info.
+Proof.
+  intros t L s c info d. unfold add_member.
+  destruct (same_key s c d) eqn:K.
+  - pose proof K as K'. apply same_key_iff in K'. unfold dkey in K'. injection K' as Hs Hc. subst s c.
+    destruct (find_sub (d_slot d) (d_comm d) info) as [e|] eqn:F; cbn [estep].
+    + destruct (s_agg e); [exact F|]. rewrite find_sub_put, sub_key_eqb_mk_sub, K. reflexivity.
+    + rewrite find_sub_put, sub_key_eqb_mk_sub, K. reflexivity.
+  - destruct (find_sub (d_slot d) (d_comm d) info) as [e|] eqn:F.
+    + destruct (s_agg e); [reflexivity|]. rewrite find_sub_put, sub_key_eqb_mk_sub, K. reflexivity.
+    + rewrite find_sub_put, sub_key_eqb_mk_sub, K. reflexivity.
+Qed.
+
+Lemma find_fold_add_member : forall t L s c M info,
+  find_sub s c (fold_left (add_member t L) M info) =
+  fold_left (estep t L) (filter (same_key s c) M) (find_sub s c info).
+Proof.
+  intros t L s c M. induction M as [|d M IH]; intro info; cbn [fold_left filter].
+  - reflexivity.
+  - rewrite IH, find_add_member. destruct (same_key s c d); reflexivity.
+Qed.
+
+Lemma s_agg_mk_sub : forall t L d, s_agg (mk_sub t L d) = agg_of t L d.
+Proof. reflexivity. Qed.
+
+Lemma fold_estep_agg : forall t L M e, s_agg e = true -> fold_left (estep t L) M (Some e) = Some e.
+Proof.
+  intros t L M e H. induction M as [|d M IH]; cbn [fold_left estep]; [reflexivity|].
+  rewrite H. exact IH.
+Qed.
+
+Lemma last_opt_cons_some : forall {A} (l : list A) (x : A), last_opt (x :: l) <> None.
+Proof.
+  intros A l. induction l as [|y l IH]; intro x; [discriminate|].
+  change (last_opt (x :: y :: l)) with (last_opt (y :: l)). apply IH.
+Qed.
+
+Lemma last_opt_cons : forall {A} (x : A) l, last_opt (x :: l) = match last_opt l with Some y => Some y | None => Some x end.
+Proof.
+  intros A x l. destruct l as [|y l]; [reflexivity|].
+  change (last_opt (x :: y :: l)) with (last_opt (y :: l)).
+  destruct (last_opt (y :: l)) eqn:E; [reflexivity|].
+  exfalso. exact (last_opt_cons_some l y E).
+Qed.
+
+Lemma last_opt_none : forall {A} (l : list A), last_opt l = None <-> l = [].
+Proof.
+  intros A l. split; [|intros ->; reflexivity].
+  destruct l as [|x l]; [reflexivity|]. rewrite last_opt_cons. destruct (last_opt l); discriminate.
+Qed.
+
+Lemma last_opt_in : forall {A} (l : list A) x, last_opt l = Some x -> In x l.
+Proof.
+  intros A l. induction l as [|y l IH]; intros x H; [discriminate|].
+  rewrite last_opt_cons in H. destruct (last_opt l) as [z|] eqn:E.
+  - injection H as <-. right. apply IH. reflexivity.
+  - injection H as <-. left. reflexivity.
+Qed.
+
+Lemma fold_estep_some : forall t L M e, s_agg e = false ->
+  fold_left (estep t L) M (Some e) =
+  match find (agg_of t L) M with
+  | Some d => Some (mk_sub t L d)
+  | None => Some (match last_opt M with Some d => mk_sub t L d | None => e end)
+  end.
+Proof.
+  intros t L M. induction M as [|d M IH]; intros e H; cbn [fold_left estep find].
+  - reflexivity.
+  - rewrite H. destruct (agg_of t L d) eqn:A.
+    + apply fold_estep_agg. exact A.
+    + rewrite IH by exact A. rewrite last_opt_cons.
+      destruct (find (agg_of t L) M); [reflexivity|]. destruct (last_opt M); reflexivity.
+Qed.
+
+Lemma fold_estep_none : forall t L M, fold_left (estep t L) M None = choose t L M.
+Proof.
+  intros t L M. unfold choose. destruct M as [|d M]; [reflexivity|].
+  cbn [fold_left estep find]. destruct (agg_of t L d) eqn:A.
+  - apply fold_estep_agg. exact A.
+  - rewrite fold_estep_some by exact A. rewrite last_opt_cons.
+    destruct (find (agg_of t L) M); [reflexivity|]. destruct (last_opt M); reflexivity.
+Qed.
+
+(* the recorded entry of every pair, for every duty list *)
+Lemma info_entry : forall t ok ds s c,
+  find_sub s c (subscription_info t ok ds) = choose t (sort_duties ds) (members ok (sort_duties ds) s c).
+Proof.
+  intros t ok ds s c. unfold subscription_info. rewrite find_fold_add_member.
+  change (find_sub s c []) with (@None sub). rewrite fold_estep_none. reflexivity.
+Qed.
+
+Lemma choose_none_iff : forall t L M, choose t L M = None <-> M = [].
+Proof.
+  intros t L M. unfold choose. destruct (find (agg_of t L) M) eqn:F.
+  - split; [discriminate|]. intros ->. discriminate.
+  - destruct (last_opt M) eqn:E; cbn [option_map].
+    + split; [discriminate|]. intros ->. discriminate.
+    + apply last_opt_none in E. subst. tauto.
+Qed.
+
+Lemma choose_some : forall t L M e, choose t L M = Some e ->
+  exists d, In d M /\ e = mk_sub t L d /\
+            (agg_of t L d = false -> forall d', In d' M -> agg_of t L d' = false).
+Proof.
+  intros t L M e H. unfold choose in H. destruct (find (agg_of t L) M) as [d|] eqn:F.
+  - injection H as <-. apply find_some in F as [Hi Ha]. exists d. split; [exact Hi|]. split; [reflexivity|].
+    intro. congruence.
+  - destruct (last_opt M) as [d|] eqn:E; [|discriminate]. injection H as <-.
+    exists d. split; [apply last_opt_in; exact E|]. split; [reflexivity|].
+    intros _ d' Hd'. destruct (agg_of t L d') eqn:A; [|reflexivity].
+    pose proof (find_none _ _ F d' Hd'). congruence.
+Qed.
+
+(* sorting is a permutation, as far as membership goes *)
+Lemma in_insert_duty : forall x y l, In y (insert_duty x l) <-> y = x \/ In y l.
+Proof.
+  intros x y l. induction l as [|z l IH]; cbn [insert_duty In].
+  - intuition.
+  - destruct (duty_leb x z); cbn [In]; [intuition|]. rewrite IH. intuition.
+Qed.
+
+Lemma in_sort_duties : forall y l, In y (sort_duties l) <-> In y l.
+Proof.
+  intros y l. unfold sort_duties. induction l as [|x l IH]; cbn [fold_right In]; [tauto|].
+  rewrite in_insert_duty, IH. intuition.
+Qed.
+
+Lemma in_members : forall ok L s c d,
+  In d (members ok L s c) <-> In d L /\ d_slot d = s /\ d_comm d = c /\ ok s = true.
+Proof.
+  intros ok L s c d. unfold members. rewrite !filter_In, same_key_iff. unfold dkey. split.
+  - intros [[H1 H2] H3]. injection H3 as <- <-. auto.
+  - intros (H1 & <- & <- & H4). auto.
+Qed.
+
+(* the keys of the info are exactly the pairs with a duty (whose slot could be signed) *)
+Lemma info_keys : forall t ok ds s c,
+  In (s, c) (map skey (subscription_info t ok ds)) <-> exists d, duty_for ok ds s c d.
+Proof.
+  intros t ok ds s c. split.
+  - intro H. destruct (find_sub s c (subscription_info t ok ds)) as [e|] eqn:F.
+    + rewrite info_entry in F. apply choose_some in F as (d & Hd & _).
+      apply in_members in Hd as (H1 & H2 & H3 & H4). rewrite in_sort_duties in H1.
+      exists d. unfold duty_for. repeat split; assumption.
+    + apply find_sub_none_iff in F. contradiction.
+  - intros (d & H1 & H2 & H3 & H4).
+    destruct (find_sub s c (subscription_info t ok ds)) as [e|] eqn:F.
+    + apply find_sub_some in F as (Hi & <- & <-). change (s_slot e, s_comm e) with (skey e).
+      apply in_map. exact Hi.
+    + rewrite info_entry in F. apply choose_none_iff in F.
+      assert (Hm : In d (members ok (sort_duties ds) s c)).
+      { apply in_members. rewrite in_sort_duties. repeat split; assumption. }
+      rewrite F in Hm. destruct Hm.
+Qed.
+
+Lemma add_member_nodup : forall t L info d,
+  NoDup (map skey info) -> NoDup (map skey (add_member t L info d)).
+Proof.
+  intros t L info d ND. unfold add_member.
+  destruct (find_sub (d_slot d) (d_comm d) info) as [e|]; [destruct (s_agg e); [exact ND|]|];
+    apply put_nodup; exact ND.
+Qed.
+
+Lemma fold_add_member_nodup : forall t L M info,
+  NoDup (map skey info) -> NoDup (map skey (fold_left (add_member t L) M info)).
+Proof.
+  intros t L M. induction M as [|d M IH]; intros info ND; cbn [fold_left]; [exact ND|].
+  apply IH. apply add_member_nodup. exact ND.
+Qed.
+
+Lemma info_nodup : forall t ok ds, NoDup (map skey (subscription_info t ok ds)).
+Proof. intros. unfold subscription_info. apply fold_add_member_nodup. constructor. Qed.
+
+(* every stored entry was made from one of the committee's duties *)
+Lemma info_entry_in : forall t ok ds e,
+  In e (subscription_info t ok ds) ->
+  exists d, duty_for ok ds (s_slot e) (s_comm e) d /\ e = mk_sub t (sort_duties ds) d /\
+    (s_agg e = false -> forall d', duty_for ok ds (s_slot e) (s_comm e) d' -> agg_of t (sort_duties ds) d' = false).
+Proof.
+  intros t ok ds e Hi.
+  pose proof (find_sub_in_nodup _ e (info_nodup t ok ds) Hi) as F.
+  rewrite info_entry in F. apply choose_some in F as (d & Hd & He & Hn).
+  exists d. apply in_members in Hd as (H1 & H2 & H3 & H4). rewrite in_sort_duties in H1.
+  split; [unfold duty_for; repeat split; assumption|]. split; [exact He|].
+  intros Ha d' (G1 & G2 & G3 & G4). apply Hn.
+  - rewrite He in Ha. exact Ha.
+  - apply in_members. rewrite in_sort_duties. repeat split; assumption.
+Qed.
+
+(* =========================================================================================== *)
+(* Part 4.  The merged lengths under a self-consistent answer; the submission.                 *)
+
+Lemma fold_last_by : forall {A} (p : A -> bool) l acc,
+  fold_left (fun acc x => if p x then Some x else acc) l acc =
+  match last_opt (filter p l) with Some y => Some y | None => acc end.
+Proof.
+  intros A p l. induction l as [|x l IH]; intro acc; cbn [fold_left filter]; [reflexivity|].
+  rewrite IH. destruct (p x); [|reflexivity].
+  rewrite last_opt_cons. destruct (last_opt (filter p l)); reflexivity.
+Qed.
+
+Lemma last_by_filter : forall {A} (p : A -> bool) l, last_by p l = last_opt (filter p l).
+Proof. intros. unfold last_by. rewrite fold_last_by. destruct (last_opt _); reflexivity. Qed.
+
+Lemma last_by_some : forall {A} (p : A -> bool) l x, last_by p l = Some x -> In x l /\ p x = true.
+Proof.
+  intros A p l x H. rewrite last_by_filter in H. apply last_opt_in in H. apply filter_In in H. exact H.
+Qed.
+
+Lemma last_by_none : forall {A} (p : A -> bool) l x, last_by p l = None -> In x l -> p x = false.
+Proof.
+  intros A p l x H Hi. rewrite last_by_filter in H. apply last_opt_none in H.
+  destruct (p x) eqn:E; [|reflexivity].
+  assert (Hf : In x (filter p l)) by (apply filter_In; auto). rewrite H in Hf. destruct Hf.
+Qed.
+
+Lemma same_slot_iff : forall s d, same_slot s d = true <-> d_slot d = s.
+Proof. intros. unfold same_slot. apply N.eqb_eq. Qed.
+
+Lemma consistent_cas : forall ds d, consistent_duties ds -> In d ds ->
+  cas_of (sort_duties ds) (d_slot d) = d_cas d.
+Proof.
+  intros ds d C Hd. unfold cas_of.
+  destruct (last_by (same_slot (d_slot d)) (sort_duties ds)) as [x|] eqn:E.
+  - apply last_by_some in E as [Hx Hs]. rewrite in_sort_duties in Hx. apply same_slot_iff in Hs.
+    apply (C x d Hx Hd Hs).
+  - assert (H : same_slot (d_slot d) d = false).
+    { eapply last_by_none; [exact E|]. apply in_sort_duties. exact Hd. }
+    assert (same_slot (d_slot d) d = true) by (apply same_slot_iff; reflexivity). congruence.
+Qed.
+
+Lemma consistent_len : forall ds d, consistent_duties ds -> In d ds ->
+  len_of (sort_duties ds) (d_slot d) (d_comm d) = d_len d.
+Proof.
+  intros ds d C Hd. unfold len_of.
+  destruct (last_by (same_key (d_slot d) (d_comm d)) (sort_duties ds)) as [x|] eqn:E.
+  - apply last_by_some in E as [Hx Hs]. rewrite in_sort_duties in Hx. apply same_key_iff in Hs.
+    unfold dkey in Hs. injection Hs as H1 H2. apply (C x d Hx Hd H1). exact H2.
+  - assert (H : same_key (d_slot d) (d_comm d) d = false).
+    { eapply last_by_none; [exact E|]. apply in_sort_duties. exact Hd. }
+    assert (same_key (d_slot d) (d_comm d) d = true) by (apply same_key_iff; reflexivity). congruence.
+Qed.
+
+(* under a self-consistent answer with proper digests, the flag vouch computes for a validator is
+   the specification's rule on that validator's own duty *)
+Lemma agg_of_selected : forall t ds d, consistent_duties ds -> digests_ok ds -> In d ds ->
+  agg_of t (sort_duties ds) d = selected t d.
+Proof.
+  intros t ds d C G Hd. unfold agg_of, selected. rewrite consistent_len by assumption.
+  destruct (G d Hd) as [Hb Hl]. apply is_aggregator_spec_lemma; assumption.
+Qed.
+
+Lemma to_submit_keys : forall cur info,
+  map pkey (to_submit cur info) = filter (fun k => cur <? fst k) (map skey info).
+Proof.
+  intros cur info. unfold to_submit. induction info as [|e info IH]; cbn [filter map]; [reflexivity|].
+  change (fst (skey e)) with (s_slot e). destruct (cur <? s_slot e); cbn [map]; rewrite IH; reflexivity.
+Qed.
+
+Lemma in_to_submit : forall cur info p,
+  In p (to_submit cur info) <-> exists e, In e info /\ cur < s_slot e /\ p = to_subscription e.
+Proof.
+  intros cur info p. unfold to_submit. rewrite in_map_iff. split.
+  - intros (e & <- & He). apply filter_In in He as [H1 H2]. apply N.ltb_lt in H2. exists e. auto.
+  - intros (e & H1 & H2 & ->). exists e. split; [reflexivity|]. apply filter_In. split; [exact H1|].
+    apply N.ltb_lt. exact H2.
+Qed.
+
+(* The submitted payload, for every duty list and every current slot. *)
+Lemma submitted_nodup : forall t ok ds cur,
+  NoDup (map pkey (to_submit cur (subscription_info t ok ds))).
+Proof. intros. rewrite to_submit_keys. apply NoDup_filter. apply info_nodup. Qed.
+
+Lemma submitted_pairs : forall t ok ds cur s c,
+  In (s, c) (map pkey (to_submit cur (subscription_info t ok ds))) <->
+  cur < s /\ exists d, duty_for ok ds s c d.
+Proof.
+  intros t ok ds cur s c. rewrite to_submit_keys, filter_In, info_keys. cbn [fst].
+  rewrite N.ltb_lt. tauto.
+Qed.
+
+Lemma submitted_entry : forall t ok ds cur p,
+  In p (to_submit cur (subscription_info t ok ds)) ->
+  cur < p_slot p /\
+  exists d, duty_for ok ds (p_slot p) (p_comm p) d /\
+            p_val p = d_val d /\
+            p_cas p = cas_of (sort_duties ds) (p_slot p) /\
+            p_agg p = agg_of t (sort_duties ds) d.
+Proof.
+  intros t ok ds cur p Hp. apply in_to_submit in Hp as (e & He & Hc & ->).
+  apply info_entry_in in He as (d & Hd & Hm & _).
+  cbn [to_subscription p_slot p_comm p_val p_cas p_agg]. split; [exact Hc|].
+  exists d. split; [exact Hd|]. rewrite Hm. cbn [mk_sub s_val s_cas s_agg s_slot]. auto.
+Qed.
+
+Lemma submitted_entry_consistent : forall t ok ds cur p,
+  consistent_duties ds -> digests_ok ds ->
+  In p (to_submit cur (subscription_info t ok ds)) ->
+  exists d, duty_for ok ds (p_slot p) (p_comm p) d /\ p_val p = d_val d /\
+            p_cas p = d_cas d /\ p_agg p = selected t d.
+Proof.
+  intros t ok ds cur p C G Hp. apply submitted_entry in Hp as (_ & d & Hd & Hv & Hc & Ha).
+  exists d. split; [exact Hd|]. split; [exact Hv|].
+  destruct Hd as (H1 & H2 & H3 & H4). split.
+  - rewrite Hc, <- H2. apply consistent_cas; assumption.
+  - rewrite Ha. apply agg_of_selected; assumption.
+Qed.
+
+(* Part 4b.  A committee with a selected validator records (and submits) a selected one. *)
+Lemma recorded_aggregator : forall t ok ds s c d,
+  duty_for ok ds s c d -> agg_of t (sort_duties ds) d = true ->
+  exists e d', find_sub s c (subscription_info t ok ds) = Some e /\ s_agg e = true /\
+               duty_for ok ds s c d' /\ e = mk_sub t (sort_duties ds) d' /\
+               agg_of t (sort_duties ds) d' = true.
+Proof.
+  intros t ok ds s c d Hd Ha.
+  destruct (find_sub s c (subscription_info t ok ds)) as [e|] eqn:F.
+  - pose proof F as F'. apply find_sub_some in F' as (Hi & Hs & Hc).
+    apply info_entry_in in Hi as (d' & Hd' & He & Hn). rewrite Hs, Hc in *.
+    destruct (s_agg e) eqn:A.
+    + exists e, d'. split; [reflexivity|]. split; [exact A|]. split; [exact Hd'|]. split; [exact He|].
+      rewrite He in A. exact A.
+    + rewrite (Hn eq_refl d Hd) in Ha. discriminate.
+  - exfalso. apply find_sub_none_iff in F. apply F. apply info_keys. exists d. exact Hd.
+Qed.
+
+Lemma recorded_flag_sound : forall t ok ds s c e,
+  find_sub s c (subscription_info t ok ds) = Some e ->
+  exists d, duty_for ok ds s c d /\ e = mk_sub t (sort_duties ds) d /\
+            (s_agg e = true <-> exists d', duty_for ok ds s c d' /\ agg_of t (sort_duties ds) d' = true).
+Proof.
+  intros t ok ds s c e F. pose proof F as F'. apply find_sub_some in F' as (Hi & Hs & Hc).
+  apply info_entry_in in Hi as (d & Hd & He & Hn). rewrite Hs, Hc in *.
+  exists d. split; [exact Hd|]. split; [exact He|]. split.
+  - intro A. exists d. split; [exact Hd|]. rewrite He in A. exact A.
+  - intros (d' & Hd' & A'). destruct (s_agg e) eqn:A; [reflexivity|].
+    rewrite (Hn eq_refl d' Hd') in A'. discriminate.
+Qed.
+
+(* =========================================================================================== *)
+(* Part 5.  Order: MergeDuties' sort, which validator is recorded, and independence of the     *)
+(* future subscriptions from the duties that are not in the future.                            *)
+
+Definition dle (a b : duty) : Prop := duty_leb a b = true.
+
+Lemma duty_leb_iff : forall a b, duty_leb a b = true <->
+  d_slot a < d_slot b \/ (d_slot a = d_slot b /\ (d_comm a < d_comm b \/ (d_comm a = d_comm b /\ d_val a <= d_val b))).
+Proof.
+  intros a b. unfold duty_leb.
+  destruct (N.ltb_spec (d_slot a) (d_slot b)); [split; [intros _; lia|reflexivity]|].
+  destruct (N.ltb_spec (d_slot b) (d_slot a)); [split; [discriminate|lia]|].
+  destruct (N.ltb_spec (d_comm a) (d_comm b)); [split; [intros _; lia|reflexivity]|].
+  destruct (N.ltb_spec (d_comm b) (d_comm a)); [split; [discriminate|lia]|].
+  rewrite N.leb_le. lia.
+Qed.
+
+Lemma duty_leb_total : forall x y, duty_leb x y = false -> duty_leb y x = true.
+Proof.
+  intros x y H. apply duty_leb_iff.
+  assert (N : ~ (duty_leb x y = true)) by congruence. rewrite duty_leb_iff in N. lia.
+Qed.
+
+Lemma duty_leb_trans : forall x y z, dle x y -> dle y z -> dle x z.
+Proof. intros x y z. unfold dle. rewrite !duty_leb_iff. lia. Qed.
+
+Lemma dle_refl : forall x, dle x x.
+Proof. intro x. unfold dle. apply duty_leb_iff. lia. Qed.
+
+Lemma dle_same_key_val : forall a b, dle a b -> dkey a = dkey b -> d_val a <= d_val b.
+Proof.
+  intros a b H K. unfold dkey in K. injection K as K1 K2. unfold dle, duty_leb in H.
+  rewrite K1, K2, !N.ltb_irrefl in H. apply N.leb_le. exact H.
+Qed.
+
+Lemma insert_sorted : forall x l, StronglySorted dle l -> StronglySorted dle (insert_duty x l).
+Proof.
+  intros x l S. induction S as [|y l S IH F]; cbn [insert_duty].
+  - constructor; constructor.
+  - destruct (duty_leb x y) eqn:E.
+    + constructor; [constructor; assumption|]. constructor; [exact E|].
+      rewrite Forall_forall in *. intros z Hz. eapply duty_leb_trans; [exact E|]. apply F. exact Hz.
+    + constructor; [exact IH|]. rewrite Forall_forall in *. intros z Hz.
+      apply in_insert_duty in Hz as [->|Hz]; [apply duty_leb_total; exact E|apply F; exact Hz].
+Qed.
+
+Lemma sort_sorted : forall l, StronglySorted dle (sort_duties l).
+Proof.
+  intro l. unfold sort_duties. induction l as [|x l IH]; cbn [fold_right]; [constructor|].
+  apply insert_sorted. exact IH.
+Qed.
+
+Lemma filter_sorted : forall (f : duty -> bool) l, StronglySorted dle l -> StronglySorted dle (filter f l).
+Proof.
+  intros f l S. induction S as [|y l S IH F]; cbn [filter]; [constructor|].
+  destruct (f y); [|exact IH]. constructor; [exact IH|].
+  rewrite Forall_forall in *. intros z Hz. apply filter_In in Hz as [Hz _]. apply F. exact Hz.
+Qed.
+
+Lemma find_first_sorted : forall (p : duty -> bool) M d,
+  StronglySorted dle M -> find p M = Some d -> forall d', In d' M -> p d' = true -> dle d d'.
+Proof.
+  intros p M d S. induction S as [|y l S IH F]; cbn [find]; intros H d' Hi Hp; [discriminate|].
+  destruct (p y) eqn:E.
+  - injection H as <-. destruct Hi as [<-|Hi].
+    + apply dle_refl.
+    + rewrite Forall_forall in F. apply F. exact Hi.
+  - destruct Hi as [<-|Hi]; [congruence|]. apply IH; assumption.
+Qed.
+
+Lemma last_opt_sorted : forall M d,
+  StronglySorted dle M -> last_opt M = Some d -> forall d', In d' M -> dle d' d.
+Proof.
+  intros M d S. induction S as [|y l S IH F]; intros H d' Hi; [discriminate|].
+  rewrite last_opt_cons in H. destruct (last_opt l) as [z|] eqn:E.
+  - injection H as <-. destruct Hi as [<-|Hi].
+    + rewrite Forall_forall in F. apply F. apply last_opt_in. exact E.
+    + apply IH; [reflexivity|exact Hi].
+  - injection H as <-. apply last_opt_none in E. subst l. destruct Hi as [<-|[]].
+    apply dle_refl.
+Qed.
+
+Lemma members_sorted : forall ok ds s c, StronglySorted dle (members ok (sort_duties ds) s c).
+Proof. intros. unfold members. apply filter_sorted, filter_sorted, sort_sorted. Qed.
+
+(* which validator: the selected one with the lowest index, else the highest index *)
+Lemma recorded_which : forall t ok ds s c e,
+  find_sub s c (subscription_info t ok ds) = Some e ->
+  (s_agg e = true ->
+     forall d', duty_for ok ds s c d' -> agg_of t (sort_duties ds) d' = true -> s_val e <= d_val d') /\
+  (s_agg e = false -> forall d', duty_for ok ds s c d' -> d_val d' <= s_val e).
+Proof.
+  intros t ok ds s c e F. rewrite info_entry in F. unfold choose in F.
+  pose proof (members_sorted ok ds s c) as S.
+  assert (K : forall x, In x (members ok (sort_duties ds) s c) -> dkey x = (s, c)).
+  { intros x Hx. apply in_members in Hx as (_ & <- & <- & _). reflexivity. }
+  assert (IM : forall d', duty_for ok ds s c d' -> In d' (members ok (sort_duties ds) s c)).
+  { intros d' (H1 & H2 & H3 & H4). apply in_members. rewrite in_sort_duties. repeat split; assumption. }
+  destruct (find (agg_of t (sort_duties ds)) (members ok (sort_duties ds) s c)) as [d|] eqn:Fd.
+  - injection F as <-. split.
+    + intros _ d' Hd' Ha. apply dle_same_key_val.
+      * eapply find_first_sorted; [exact S|exact Fd|apply IM; exact Hd'|exact Ha].
+      * rewrite (K d), (K d'); [reflexivity|apply IM; exact Hd'|]. apply find_some in Fd. apply Fd.
+    + intro A. apply find_some in Fd as [_ Fd]. rewrite s_agg_mk_sub in A. congruence.
+  - destruct (last_opt (members ok (sort_duties ds) s c)) as [d|] eqn:El; [|discriminate].
+    injection F as <-. split.
+    + intro A. rewrite s_agg_mk_sub in A. pose proof (find_none _ _ Fd d (last_opt_in _ _ El)). congruence.
+    + intros _ d' Hd'. apply dle_same_key_val.
+      * eapply last_opt_sorted; [exact S|exact El|apply IM; exact Hd'].
+      * rewrite (K d), (K d'); [reflexivity|apply IM; exact Hd'|]. apply last_opt_in. exact El.
+Qed.
+
+(* --- sorting commutes with filtering --- *)
+Lemma insert_head : forall x l, Forall (dle x) l -> insert_duty x l = x :: l.
+Proof.
+  intros x l F. destruct l as [|y l]; [reflexivity|]. cbn [insert_duty].
+  inversion F as [|? ? H _]; subst. unfold dle in H. rewrite H. reflexivity.
+Qed.
+
+Lemma filter_insert : forall (f : duty -> bool) x l, StronglySorted dle l ->
+  filter f (insert_duty x l) = if f x then insert_duty x (filter f l) else filter f l.
+Proof.
+  intros f x l S. induction S as [|y l S IH F]; cbn [insert_duty filter].
+  - destruct (f x); reflexivity.
+  - destruct (duty_leb x y) eqn:E; cbn [filter].
+    + destruct (f x) eqn:Fx; [|reflexivity].
+      destruct (f y) eqn:Fy.
+      * cbn [insert_duty]. rewrite E. reflexivity.
+      * rewrite insert_head; [reflexivity|].
+        rewrite Forall_forall in *. intros z Hz. apply filter_In in Hz as [Hz _].
+        eapply duty_leb_trans; [exact E|]. apply F. exact Hz.
+    + rewrite IH. destruct (f y) eqn:Fy; destruct (f x) eqn:Fx; try reflexivity.
+      cbn [insert_duty]. rewrite E. reflexivity.
+Qed.
+
+Lemma sort_filter : forall (f : duty -> bool) l, sort_duties (filter f l) = filter f (sort_duties l).
+Proof.
+  intros f l. unfold sort_duties. induction l as [|x l IH]; cbn [filter fold_right]; [reflexivity|].
+  rewrite filter_insert by apply sort_sorted. destruct (f x); cbn [fold_right]; rewrite IH; reflexivity.
+Qed.
+
+(* --- restriction of the info to the slots satisfying [g] --- *)
+Section Restrict.
+  Variable g : N -> bool.
+  Let q (e : sub) : bool := g (s_slot e).
+  Let q' (d : duty) : bool := g (d_slot d).
+
+  Lemma filter_put : forall e info,
+    filter q (put e info) = if q e then put e (filter q info) else filter q info.
+  Proof.
+    intros e info. induction info as [|x info IH]; cbn [put filter].
+    - destruct (q e); reflexivity.
+    - destruct (sub_key_eqb (s_slot e) (s_comm e) x) eqn:K.
+      + assert (Hq : q x = q e).
+        { apply sub_key_eqb_iff in K. unfold skey in K. injection K as K1 K2. unfold q. rewrite K1. reflexivity. }
+        cbn [filter]. rewrite Hq. destruct (q e); [|reflexivity]. cbn [put]. rewrite K. reflexivity.
+      + cbn [filter]. rewrite IH. destruct (q x), (q e); try reflexivity. cbn [put]. rewrite K. reflexivity.
+  Qed.
+
+  Lemma find_sub_filter : forall s c info, g s = true -> find_sub s c (filter q info) = find_sub s c info.
+  Proof.
+    intros s c info G. unfold find_sub. induction info as [|x info IH]; cbn [filter find]; [reflexivity|].
+    destruct (sub_key_eqb s c x) eqn:K.
+    - assert (Hq : q x = true).
+      { apply sub_key_eqb_iff in K. unfold skey in K. injection K as K1 K2. unfold q. rewrite K1. exact G. }
+      rewrite Hq. cbn [find]. rewrite K. reflexivity.
+    - destruct (q x); [cbn [find]; rewrite K|]; exact IH.
+  Qed.
+
+  Lemma filter_add_member : forall t L info d,
+    filter q (add_member t L info d) = if q' d then add_member t L (filter q info) d else filter q info.
+  Proof.
+    intros t L info d. unfold add_member. destruct (q' d) eqn:G.
+    - rewrite find_sub_filter by exact G.
+      assert (Hq : q (mk_sub t L d) = true) by exact G.
+      destruct (find_sub (d_slot d) (d_comm d) info) as [e|];
+        [destruct (s_agg e); [reflexivity|]|]; rewrite filter_put, Hq; reflexivity.
+    - assert (Hq : q (mk_sub t L d) = false) by exact G.
+      destruct (find_sub (d_slot d) (d_comm d) info) as [e|];
+        [destruct (s_agg e); [reflexivity|]|]; rewrite filter_put, Hq; reflexivity.
+  Qed.
+
+  Lemma filter_fold_add_member : forall t L M info,
+    filter q (fold_left (add_member t L) M info) = fold_left (add_member t L) (filter q' M) (filter q info).
+  Proof.
+    intros t L M. induction M as [|d M IH]; intro info; cbn [fold_left filter]; [reflexivity|].
+    rewrite IH, filter_add_member. destruct (q' d); reflexivity.
+  Qed.
+
+  Lemma last_by_restrict : forall (p : duty -> bool) L,
+    (forall d, p d = true -> q' d = true) -> last_by p (filter q' L) = last_by p L.
+  Proof.
+    intros p L H. rewrite !last_by_filter. f_equal.
+    induction L as [|d L IH]; cbn [filter]; [reflexivity|].
+    destruct (q' d) eqn:G; cbn [filter].
+    - rewrite IH. reflexivity.
+    - destruct (p d) eqn:P; [|exact IH]. apply H in P. congruence.
+  Qed.
+
+  Lemma mk_sub_restrict : forall t L d, q' d = true -> mk_sub t (filter q' L) d = mk_sub t L d.
+  Proof.
+    intros t L d G. unfold mk_sub, agg_of, len_of, cas_of.
+    rewrite !last_by_restrict; [reflexivity| |].
+    - intros x Hx. apply same_slot_iff in Hx. unfold q'. rewrite Hx. exact G.
+    - intros x Hx. apply same_key_iff in Hx. unfold dkey in Hx. injection Hx as H1 H2. unfold q'. rewrite H1. exact G.
+  Qed.
+
+  Lemma add_member_restrict : forall t L info d, q' d = true ->
+    add_member t (filter q' L) info d = add_member t L info d.
+  Proof. intros. unfold add_member. rewrite mk_sub_restrict by assumption. reflexivity. Qed.
+
+  Lemma fold_left_ext_in : forall {A B} (f1 f2 : A -> B -> A) l a,
+    (forall a x, In x l -> f1 a x = f2 a x) -> fold_left f1 l a = fold_left f2 l a.
+  Proof.
+    intros A B f1 f2 l. induction l as [|x l IH]; intros a H; cbn [fold_left]; [reflexivity|].
+    rewrite H by (left; reflexivity). apply IH. intros. apply H. right. assumption.
+  Qed.
+
+  Lemma filter_comm : forall {A} (f1 f2 : A -> bool) l, filter f1 (filter f2 l) = filter f2 (filter f1 l).
+  Proof.
+    intros A f1 f2 l. induction l as [|x l IH]; cbn [filter]; [reflexivity|].
+    destruct (f1 x) eqn:E1, (f2 x) eqn:E2; cbn [filter]; rewrite ?E1, ?E2, IH; reflexivity.
+  Qed.
+
+  (* the entries of the slots satisfying [g] are those computed from the duties of these slots alone *)
+  Lemma info_restrict : forall t ok ds,
+    filter q (subscription_info t ok ds) = subscription_info t ok (filter q' ds).
+  Proof.
+    intros t ok ds. unfold subscription_info. rewrite filter_fold_add_member. cbn [filter].
+    rewrite sort_filter. rewrite filter_comm.
+    apply fold_left_ext_in. intros a x Hx. symmetry. apply add_member_restrict.
+    apply filter_In in Hx as [Hx _]. apply filter_In in Hx as [_ Hx]. exact Hx.
+  Qed.
+End Restrict.
+
+Lemma submitted_independent_of_past : forall t ok ds cur,
+  to_submit cur (subscription_info t ok ds) =
+  map to_subscription (subscription_info t ok (filter (fun d => cur <? d_slot d) ds)).
+Proof.
+  intros t ok ds cur. unfold to_submit.
+  rewrite (info_restrict (fun s => cur <? s)). reflexivity.
+Qed.
+
+Lemma filter_idem : forall {A} (f : A -> bool) l, filter f (filter f l) = filter f l.
+Proof.
+  intros A f l. induction l as [|x l IH]; cbn [filter]; [reflexivity|].
+  destruct (f x) eqn:E; cbn [filter]; rewrite ?E, IH; reflexivity.
+Qed.
+
+Lemma submitted_independent_of_past' : forall t ok ds cur,
+  to_submit cur (subscription_info t ok ds) =
+  to_submit cur (subscription_info t ok (filter (fun d => cur <? d_slot d) ds)).
+Proof.
+  intros t ok ds cur. rewrite (submitted_independent_of_past t ok (filter _ ds)), filter_idem.
+  apply submitted_independent_of_past.
+Qed.
+
+(* =========================================================================================== *)
+(* Part 6.  AttestAndScheduleAggregate.                                                        *)
+
+(* the entry that makes an attestation's committee eligible for an aggregation job *)
+Definition elig (info : list sub) (cur : N) (acct_ok : N -> bool) (a : att) : option sub :=
+  match find_sub (a_slot a) (a_comm a) info with
+  | None => None
+  | Some e => if a_slot a <? cur then None
+              else if negb (s_agg e) then None
+              else if negb (acct_ok (s_val e)) then None else Some e
+  end.
+
+Lemma elig_some_iff : forall info cur acct_ok a e,
+  elig info cur acct_ok a = Some e <->
+  find_sub (a_slot a) (a_comm a) info = Some e /\ cur <= a_slot a /\ s_agg e = true /\ acct_ok (s_val e) = true.
+Proof.
+  intros info cur acct_ok a e. unfold elig.
+  destruct (find_sub (a_slot a) (a_comm a) info) as [e'|].
+  - destruct (N.ltb_spec (a_slot a) cur).
+    + split; [discriminate|]. intros (_ & H1 & _). lia.
+    + destruct (s_agg e') eqn:A; cbn [negb].
+      * destruct (acct_ok (s_val e')) eqn:B; cbn [negb].
+        -- split; [intro E; injection E as <-; auto|]. intros (E & _). exact E.
+        -- split; [discriminate|]. intros (E & _ & _ & B'). injection E as <-. congruence.
+      * split; [discriminate|]. intros (E & _ & A' & _). injection E as <-. congruence.
+  - split; [discriminate|]. intros (E & _). discriminate.
+Qed.
+
+Lemma attest_step_elig : forall pr info cur acct_ok jobs a,
+  attest_step pr info cur acct_ok jobs a =
+  match elig info cur acct_ok a with
+  | Some e => if has_job (a_slot a) (a_comm a) jobs then jobs else jobs ++ [mk_job pr a e]
+  | None => jobs
+  end.
+Proof.
+  intros. unfold attest_step, elig.
+  destruct (find_sub (a_slot a) (a_comm a) info) as [e|]; [|reflexivity].
+  destruct (a_slot a <? cur); [reflexivity|].
+  destruct (negb (s_agg e)); [reflexivity|].
+  destruct (negb (acct_ok (s_val e))); reflexivity.
+Qed.
+
+Lemma job_key_eqb_iff : forall s c j, job_key_eqb s c j = true <-> jkey j = (s, c).
+Proof.
+  intros s c j. unfold job_key_eqb, jkey. rewrite andb_true_iff, !N.eqb_eq. split.
+  - intros [-> ->]. reflexivity.
+  - intro H. injection H as -> ->. split; reflexivity.
+Qed.
+
+Lemma has_job_iff : forall s c jobs, has_job s c jobs = true <-> In (s, c) (map jkey jobs).
+Proof.
+  intros s c jobs. unfold has_job. rewrite existsb_exists, in_map_iff. split.
+  - intros (j & Hj & K). apply job_key_eqb_iff in K. exists j. auto.
+  - intros (j & K & Hj). exists j. split; [exact Hj|]. apply job_key_eqb_iff. exact K.
+Qed.
+
+Lemma has_job_false_iff : forall s c jobs, has_job s c jobs = false <-> ~ In (s, c) (map jkey jobs).
+Proof.
+  intros s c jobs. rewrite <- has_job_iff. destruct (has_job s c jobs); split; congruence.
+Qed.
+
+Lemma jkey_mk_job : forall pr a e, jkey (mk_job pr a e) = akey a.
+Proof. reflexivity. Qed.
+
+(* one attestation: nothing is lost, keys stay distinct, the committee is served if eligible *)
+Lemma attest_step_prefix : forall pr info cur acct_ok jobs a,
+  exists new, attest_step pr info cur acct_ok jobs a = jobs ++ new.
+Proof.
+  intros. rewrite attest_step_elig. destruct (elig info cur acct_ok a) as [e|].
+  - destruct (has_job _ _ jobs); [exists []; rewrite app_nil_r; reflexivity|eexists; reflexivity].
+  - exists []. rewrite app_nil_r. reflexivity.
+Qed.
+
+Lemma nodup_app_one : forall {A} (l : list A) x, NoDup l -> ~ In x l -> NoDup (l ++ [x]).
+Proof.
+  intros A l x ND Hn. apply NoDup_rev in ND. rewrite <- (rev_involutive (_ ++ _)). apply NoDup_rev.
+  rewrite rev_app_distr. cbn. constructor; [|exact ND]. rewrite <- in_rev. exact Hn.
+Qed.
+
+Lemma attest_step_nodup : forall pr info cur acct_ok jobs a,
+  NoDup (map jkey jobs) -> NoDup (map jkey (attest_step pr info cur acct_ok jobs a)).
+Proof.
+  intros pr info cur acct_ok jobs a ND. rewrite attest_step_elig.
+  destruct (elig info cur acct_ok a) as [e|]; [|exact ND].
+  destruct (has_job (a_slot a) (a_comm a) jobs) eqn:H; [exact ND|].
+  rewrite map_app. cbn [map]. apply nodup_app_one; [exact ND|].
+  apply has_job_false_iff in H. exact H.
+Qed.
+
+Lemma attest_run_prefix : forall pr info cur acct_ok atts jobs,
+  exists new, attest_run pr info cur acct_ok jobs atts = jobs ++ new.
+Proof.
+  intros pr info cur acct_ok atts. unfold attest_run.
+  induction atts as [|a atts IH]; intro jobs; cbn [fold_left].
+  - exists []. rewrite app_nil_r. reflexivity.
+  - destruct (attest_step_prefix pr info cur acct_ok jobs a) as [n1 E1]. rewrite E1.
+    destruct (IH (jobs ++ n1)) as [n2 E2]. rewrite E2. exists (n1 ++ n2). rewrite app_assoc. reflexivity.
+Qed.
+
+Lemma attest_run_nodup : forall pr info cur acct_ok atts jobs,
+  NoDup (map jkey jobs) -> NoDup (map jkey (attest_run pr info cur acct_ok jobs atts)).
+Proof.
+  intros pr info cur acct_ok atts. unfold attest_run.
+  induction atts as [|a atts IH]; intros jobs ND; cbn [fold_left]; [exact ND|].
+  apply IH. apply attest_step_nodup. exact ND.
+Qed.
+
+(* every job of the result was there before or was made from an eligible attestation of this call *)
+Lemma attest_run_sound : forall pr info cur acct_ok atts jobs j,
+  In j (attest_run pr info cur acct_ok jobs atts) ->
+  In j jobs \/ exists a e, In a atts /\ elig info cur acct_ok a = Some e /\ j = mk_job pr a e /\
+                           ~ In (akey a) (map jkey jobs).
+Proof.
+  intros pr info cur acct_ok atts. unfold attest_run.
+  induction atts as [|a atts IH]; intros jobs j Hj; cbn [fold_left] in Hj; [left; exact Hj|].
+  apply IH in Hj as [Hj|(a' & e & Ha & He & -> & Hn)].
+  - rewrite attest_step_elig in Hj. destruct (elig info cur acct_ok a) as [e|] eqn:E; [|left; exact Hj].
+    destruct (has_job (a_slot a) (a_comm a) jobs) eqn:H; [left; exact Hj|].
+    apply in_app_or in Hj as [Hj|[<-|[]]]; [left; exact Hj|].
+    right. exists a, e. split; [left; reflexivity|]. split; [exact E|]. split; [reflexivity|].
+    apply has_job_false_iff in H. exact H.
+  - right. exists a', e. split; [right; exact Ha|]. split; [exact He|]. split; [reflexivity|].
+    intro Hi. apply Hn. destruct (attest_step_prefix pr info cur acct_ok jobs a) as [n E]. rewrite E.
+    rewrite map_app. apply in_or_app. left. exact Hi.
+Qed.
+
+(* every eligible attested committee has a job afterwards *)
+Lemma attest_run_complete : forall pr info cur acct_ok atts jobs a e,
+  In a atts -> elig info cur acct_ok a = Some e ->
+  In (akey a) (map jkey (attest_run pr info cur acct_ok jobs atts)).
+Proof.
+  intros pr info cur acct_ok atts. unfold attest_run.
+  induction atts as [|x atts IH]; intros jobs a e Ha He; [destruct Ha|]. cbn [fold_left].
+  destruct Ha as [->|Ha]; [|eapply IH; eassumption].
+  destruct (attest_run_prefix pr info cur acct_ok atts (attest_step pr info cur acct_ok jobs a)) as [n E].
+  unfold attest_run in E. rewrite E, map_app. apply in_or_app. left.
+  rewrite attest_step_elig, He.
+  destruct (has_job (a_slot a) (a_comm a) jobs) eqn:H; [apply has_job_iff; exact H|].
+  rewrite map_app. apply in_or_app. right. left. reflexivity.
+Qed.
+
+Lemma nodup_key_unique : forall {A K} (f : A -> K) l x y,
+  NoDup (map f l) -> In x l -> In y l -> f x = f y -> x = y.
+Proof.
+  intros A K f l. induction l as [|z l IH]; intros x y ND Hx Hy E; [destruct Hx|].
+  cbn [map] in ND. inversion ND as [|? ? Hn ND']; subst.
+  destruct Hx as [->|Hx], Hy as [->|Hy].
+  - reflexivity.
+  - exfalso. apply Hn. rewrite E. apply in_map. exact Hy.
+  - exfalso. apply Hn. rewrite <- E. apply in_map. exact Hx.
+  - apply IH; assumption.
+Qed.
+
+(* The statement in one piece, at the level of the stored information. *)
+Lemma attest_run_main : forall pr info cur acct_ok jobs atts,
+  NoDup (map jkey jobs) ->
+  let jobs' := attest_run pr info cur acct_ok jobs atts in
+  (exists new, jobs' = jobs ++ new) /\
+  NoDup (map jkey jobs') /\
+  (forall a e, In a atts -> find_sub (a_slot a) (a_comm a) info = Some e -> s_agg e = true ->
+     cur <= a_slot a -> acct_ok (s_val e) = true ->
+     exists j, In j jobs' /\ jkey j = akey a /\
+       (forall j', In j' jobs' -> jkey j' = akey a -> j' = j) /\
+       (~ In (akey a) (map jkey jobs) ->
+          j_time j = a_slot a * slot_ms pr + delay_ms pr /\ j_dslot j = a_slot a /\
+          j_val j = s_val e /\ j_sig j = s_sig e /\
+          exists a', In a' atts /\ akey a' = akey a /\ j_root j = a_root a')) /\
+  (forall j, In j jobs' -> ~ In j jobs ->
+     exists a e, In a atts /\ find_sub (a_slot a) (a_comm a) info = Some e /\ s_agg e = true /\
+       cur <= a_slot a /\ acct_ok (s_val e) = true /\ j = mk_job pr a e).
+Proof.
+  intros pr info cur acct_ok jobs atts ND jobs'.
+  pose proof (attest_run_nodup pr info cur acct_ok atts jobs ND) as ND'. fold jobs' in ND'.
+  split; [apply attest_run_prefix|]. split; [exact ND'|]. split.
+  - intros a e Ha F A C B.
+    assert (He : elig info cur acct_ok a = Some e) by (apply elig_some_iff; auto).
+    pose proof (attest_run_complete pr info cur acct_ok atts jobs a e Ha He) as Hk. fold jobs' in Hk.
+    apply in_map_iff in Hk as (j & Kj & Hj). exists j. split; [exact Hj|]. split; [exact Kj|]. split.
+    + intros j' Hj' Kj'. apply (nodup_key_unique jkey jobs'); try assumption. congruence.
+    + intro Hn. apply attest_run_sound in Hj as [Hj|(a' & e' & Ha' & He' & -> & _)].
+      * exfalso. apply Hn. rewrite <- Kj. apply in_map. exact Hj.
+      * rewrite jkey_mk_job in Kj. apply elig_some_iff in He' as (F' & _).
+        unfold akey in Kj. injection Kj as K1 K2. rewrite K1, K2, F in F'. injection F' as <-.
+        cbn [mk_job j_time j_dslot j_val j_sig j_root]. rewrite K1.
+        apply find_sub_some in F as (_ & Hs & _).
+        repeat split; try reflexivity; try assumption.
+        exists a'. unfold akey. rewrite K1, K2. auto.
+  - intros j Hj Hn. apply attest_run_sound in Hj as [Hj|(a & e & Ha & He & -> & _)]; [contradiction|].
+    apply elig_some_iff in He as (F & C & A & B). exists a, e. auto 10.
+Qed.
+
+(* =========================================================================================== *)
+(* Part 7.  From the duties to the jobs; the controller's history.                             *)
+
+Lemma selected_committee_gets_job : forall pr ok ds cur acct_ok jobs atts a d,
+  consistent_duties ds -> digests_ok ds -> NoDup (map jkey jobs) ->
+  In a atts -> cur <= a_slot a ->
+  duty_for ok ds (a_slot a) (a_comm a) d -> selected (agg_target pr) d = true ->
+  (forall d', duty_for ok ds (a_slot a) (a_comm a) d' -> selected (agg_target pr) d' = true ->
+              acct_ok (d_val d') = true) ->
+  let jobs' := attest_run pr (subscription_info (agg_target pr) ok ds) cur acct_ok jobs atts in
+  exists j, In j jobs' /\ jkey j = akey a /\
+    (forall j', In j' jobs' -> jkey j' = akey a -> j' = j) /\
+    (~ In (akey a) (map jkey jobs) ->
+       j_time j = a_slot a * slot_ms pr + delay_ms pr /\ j_dslot j = a_slot a /\
+       (exists d', duty_for ok ds (a_slot a) (a_comm a) d' /\ selected (agg_target pr) d' = true /\
+                   j_val j = d_val d' /\ j_sig j = d_sig d') /\
+       exists a', In a' atts /\ akey a' = akey a /\ j_root j = a_root a').
+Proof.
+  intros pr ok ds cur acct_ok jobs atts a d C G ND Ha Hc Hd Hs Hacct jobs'.
+  assert (Hagg : agg_of (agg_target pr) (sort_duties ds) d = true).
+  { rewrite agg_of_selected; [exact Hs|exact C|exact G|apply Hd]. }
+  destruct (recorded_aggregator _ ok ds _ _ d Hd Hagg) as (e & d' & F & A & Hd' & He & Ha').
+  assert (Hs' : selected (agg_target pr) d' = true).
+  { rewrite <- agg_of_selected with (ds := ds); [exact Ha'|exact C|exact G|apply Hd']. }
+  destruct (attest_run_main pr (subscription_info (agg_target pr) ok ds) cur acct_ok jobs atts ND)
+    as (_ & _ & H3 & _).
+  destruct (H3 a e Ha F A Hc) as (j & Hj & Kj & Hu & Hnew).
+  { rewrite He. cbn [mk_sub s_val]. apply Hacct; assumption. }
+  exists j. split; [exact Hj|]. split; [exact Kj|]. split; [exact Hu|].
+  intro Hn. destruct (Hnew Hn) as (T & Ds & V & Sg & R).
+  split; [exact T|]. split; [exact Ds|]. split; [|exact R].
+  exists d'. rewrite V, Sg, He. cbn [mk_sub s_val s_sig]. auto.
+Qed.
+
+(* --- the history --- *)
+Lemma get_set_info : forall ep ep' v m,
+  get_info ep (set_info ep' v m) = if ep' =? ep then Some v else get_info ep m.
+Proof.
+  intros ep ep' v m. induction m as [|[k w] m IH]; cbn [set_info get_info].
+  - reflexivity.
+  - destruct (k =? ep') eqn:K; cbn [get_info].
+    + apply N.eqb_eq in K. subst k. destruct (ep' =? ep); reflexivity.
+    + rewrite IH. destruct (ep' =? ep) eqn:E; [|reflexivity].
+      apply N.eqb_eq in E. rewrite <- E, K. reflexivity.
+Qed.
+
+Lemma run_cons : forall pr st o ops,
+  fst (run pr st (o :: ops)) = fst (run pr (fst (step pr st o)) ops).
+Proof.
+  intros. cbn [run]. destruct (step pr st o) as [st1 x]. cbn [fst].
+  destruct (run pr st1 ops) as [st2 xs]. reflexivity.
+Qed.
+
+Lemma step_infos : forall pr st o ep,
+  get_info ep (st_infos (fst (step pr st o))) = last_info pr ep [o] (get_info ep (st_infos st)).
+Proof.
+  intros pr st o ep. destruct o as [ep' cur na df sf ds|dslot cur af na atts]; cbn [step last_info].
+  - destruct na; cbn [fst st_infos].
+    + rewrite get_set_info. reflexivity.
+    + destruct df; cbn [fst st_infos].
+      * destruct (ep' =? ep); reflexivity.
+      * rewrite get_set_info. reflexivity.
+  - destruct af; [reflexivity|]. destruct atts; [reflexivity|].
+    destruct (get_info (dslot / spe pr) (st_infos st)); reflexivity.
+Qed.
+
+Lemma run_infos : forall pr ops st ep,
+  get_info ep (st_infos (fst (run pr st ops))) = last_info pr ep ops (get_info ep (st_infos st)).
+Proof.
+  intros pr ops. induction ops as [|o ops IH]; intros st ep; [reflexivity|].
+  rewrite run_cons, IH, step_infos. destruct o; reflexivity.
+Qed.
+
+Lemma last_info_app : forall pr ep ops1 ops2 acc,
+  last_info pr ep (ops1 ++ ops2) acc = last_info pr ep ops2 (last_info pr ep ops1 acc).
+Proof.
+  intros pr ep ops1. induction ops1 as [|o ops1 IH]; intros ops2 acc; [reflexivity|].
+  destruct o; cbn [app last_info]; apply IH.
+Qed.
+
+(* operations that leave the information of epoch [ep] alone *)
+Definition keeps (ep : N) (o : op) : Prop :=
+  match o with
+  | OSub ep' _ no_accounts duties_fail _ _ => ep' <> ep \/ (no_accounts = false /\ duties_fail = true)
+  | OAtt _ _ _ _ _ => True
+  end.
+
+Lemma last_info_keeps : forall pr ep ops acc, Forall (keeps ep) ops -> last_info pr ep ops acc = acc.
+Proof.
+  intros pr ep ops. induction ops as [|o ops IH]; intros acc F; [reflexivity|].
+  inversion F as [|? ? K F']; subst. destruct o as [ep' cur na df sf ds|]; cbn [last_info].
+  - cbn [keeps] in K. rewrite IH by exact F'. destruct (N.eqb_spec ep' ep) as [E|E]; [|reflexivity].
+    destruct K as [K|[-> ->]]; [contradiction|reflexivity].
+  - apply IH. exact F'.
+Qed.
+
+(* jobs: one step never loses a job, keeps the names distinct and the times right *)
+Definition job_wf (pr : params) (j : job) : Prop :=
+  j_time j = j_slot j * slot_ms pr + delay_ms pr /\ j_dslot j = j_slot j.
+
+Definition jobs_inv (pr : params) (jobs : list job) : Prop :=
+  NoDup (map jkey jobs) /\ Forall (job_wf pr) jobs.
+
+Lemma attest_run_inv : forall pr info cur acct_ok jobs atts,
+  jobs_inv pr jobs -> jobs_inv pr (attest_run pr info cur acct_ok jobs atts).
+Proof.
+  intros pr info cur acct_ok jobs atts [ND W]. split; [apply attest_run_nodup; exact ND|].
+  rewrite Forall_forall in *. intros j Hj.
+  apply attest_run_sound in Hj as [Hj|(a & e & _ & He & -> & _)]; [apply W; exact Hj|].
+  apply elig_some_iff in He as (F & _). apply find_sub_some in F as (_ & Hs & _).
+  unfold job_wf. cbn [mk_job j_time j_slot j_dslot]. auto.
+Qed.
+
+Lemma step_jobs : forall pr st o,
+  (exists new, st_jobs (fst (step pr st o)) = st_jobs st ++ new) /\
+  (jobs_inv pr (st_jobs st) -> jobs_inv pr (st_jobs (fst (step pr st o)))).
+Proof.
+  intros pr st o.
+  assert (Same : (exists new, st_jobs st = st_jobs st ++ new)) by (exists []; rewrite app_nil_r; reflexivity).
+  destruct o as [ep' cur na df sf ds|dslot cur af na atts]; cbn [step].
+  - destruct na; [cbn [fst st_jobs]; auto|]. destruct df; cbn [fst st_jobs]; auto.
+  - destruct af; [auto|]. destruct atts as [|a atts]; [auto|].
+    destruct (get_info (dslot / spe pr) (st_infos st)) as [info|]; [|auto].
+    cbn [fst st_jobs]. split; [apply attest_run_prefix|apply attest_run_inv].
+Qed.
+
+Lemma run_jobs : forall pr ops st,
+  (exists new, st_jobs (fst (run pr st ops)) = st_jobs st ++ new) /\
+  (jobs_inv pr (st_jobs st) -> jobs_inv pr (st_jobs (fst (run pr st ops)))).
+Proof.
+  intros pr ops. induction ops as [|o ops IH]; intro st.
+  - cbn [run fst]. split; [exists []; rewrite app_nil_r; reflexivity|auto].
+  - rewrite run_cons. destruct (step_jobs pr st o) as [[n1 E1] I1].
+    destruct (IH (fst (step pr st o))) as [[n2 E2] I2]. split.
+    + exists (n1 ++ n2). rewrite E2, E1, app_assoc. reflexivity.
+    + intro I. apply I2, I1, I.
+Qed.
+
+Lemma init_inv : forall pr, jobs_inv pr (st_jobs init).
+Proof. intro pr. split; constructor. Qed.
+
+(* what one attest operation does in a reachable state *)
+Lemma step_att : forall pr st dslot cur no_acct a atts info,
+  get_info (dslot / spe pr) (st_infos st) = Some info ->
+  step pr st (OAtt dslot cur false no_acct (a :: atts)) =
+  (let jobs := attest_run pr info cur (acct_ok_of no_acct) (st_jobs st) (a :: atts) in
+   ({| st_infos := st_infos st; st_jobs := jobs |}, OutAtt jobs)).
+Proof. intros pr st dslot cur no_acct a atts info H. cbn [step]. rewrite H. reflexivity. Qed.
+
+(* The whole statement over a history: some operations, a subscribe of the epoch, operations that
+   leave that epoch's information alone, then an attest of a slot of the epoch. *)
+Lemma history_selected_committee_gets_job :
+  forall pr ops1 ep cur1 sign_fail ds ops2 dslot cur no_acct atts a d,
+    Forall (keeps ep) ops2 -> dslot / spe pr = ep ->
+    consistent_duties ds -> digests_ok ds ->
+    In a atts -> cur <= a_slot a ->
+    duty_for (sign_ok_of sign_fail) ds (a_slot a) (a_comm a) d -> selected (agg_target pr) d = true ->
+    (forall d', duty_for (sign_ok_of sign_fail) ds (a_slot a) (a_comm a) d' ->
+                selected (agg_target pr) d' = true -> acct_ok_of no_acct (d_val d') = true) ->
+    let st := fst (run pr init (ops1 ++ OSub ep cur1 false false sign_fail ds :: ops2)) in
+    let r := step pr st (OAtt dslot cur false no_acct atts) in
+    snd r = OutAtt (st_jobs (fst r)) /\
+    (forall j, In j (st_jobs st) -> In j (st_jobs (fst r))) /\
+    exists j, In j (st_jobs (fst r)) /\ jkey j = akey a /\
+      (forall j', In j' (st_jobs (fst r)) -> jkey j' = akey a -> j' = j) /\
+      j_time j = a_slot a * slot_ms pr + delay_ms pr /\ j_dslot j = a_slot a /\
+      (~ In (akey a) (map jkey (st_jobs st)) ->
+         (exists d', duty_for (sign_ok_of sign_fail) ds (a_slot a) (a_comm a) d' /\
+                     selected (agg_target pr) d' = true /\ j_val j = d_val d' /\ j_sig j = d_sig d') /\
+         exists a', In a' atts /\ akey a' = akey a /\ j_root j = a_root a').
+Proof.
+  intros pr ops1 ep cur1 sign_fail ds ops2 dslot cur no_acct atts a d K E C G Ha Hc Hd Hs Hacct st r.
+  assert (I : get_info (dslot / spe pr) (st_infos st) =
+              Some (subscription_info (agg_target pr) (sign_ok_of sign_fail) ds)).
+  { unfold st. rewrite run_infos, last_info_app. cbn [last_info]. rewrite E, N.eqb_refl.
+    apply last_info_keeps. exact K. }
+  assert (Inv : jobs_inv pr (st_jobs st)) by (apply run_jobs, init_inv).
+  destruct atts as [|a0 atts]; [destruct Ha|].
+  unfold r. rewrite (step_att _ _ _ _ _ _ _ _ I). cbn [fst snd st_jobs].
+  split; [reflexivity|]. split.
+  - intros j Hj. destruct (attest_run_prefix pr (subscription_info (agg_target pr) (sign_ok_of sign_fail) ds)
+      cur (acct_ok_of no_acct) (a0 :: atts) (st_jobs st)) as [n En]. rewrite En. apply in_or_app. left. exact Hj.
+  - destruct Inv as [ND W].
+    destruct (selected_committee_gets_job pr (sign_ok_of sign_fail) ds cur (acct_ok_of no_acct)
+                (st_jobs st) (a0 :: atts) a d C G ND Ha Hc Hd Hs Hacct) as (j & Hj & Kj & Hu & Hnew).
+    exists j. split; [exact Hj|]. split; [exact Kj|]. split; [exact Hu|].
+    assert (Wj : job_wf pr j).
+    { pose proof (attest_run_inv pr (subscription_info (agg_target pr) (sign_ok_of sign_fail) ds)
+        cur (acct_ok_of no_acct) (st_jobs st) (a0 :: atts) (conj ND W)) as [_ W'].
+      rewrite Forall_forall in W'. apply W'. exact Hj. }
+    destruct Wj as [T Dl]. unfold jkey, akey in Kj. injection Kj as K1 K2.
+    rewrite K1 in T, Dl. split; [exact T|]. split; [exact Dl|].
+    intro Hn. destruct (Hnew Hn) as (_ & _ & P & R). split; assumption.
+Qed.
+
+(* =========================================================================================== *)
+(* Part 8.  Corollaries in the vocabulary of the property text; the pinned tree.               *)
+
+Lemma recorded_aggregator_spec : forall t ok ds s c d cur,
+  consistent_duties ds -> digests_ok ds ->
+  duty_for ok ds s c d -> selected t d = true ->
+  exists e d', find_sub s c (subscription_info t ok ds) = Some e /\ s_agg e = true /\
+    duty_for ok ds s c d' /\ selected t d' = true /\ s_val e = d_val d' /\ s_sig e = d_sig d' /\
+    (cur < s -> In (to_subscription e) (to_submit cur (subscription_info t ok ds))).
+Proof.
+  intros t ok ds s c d cur C G Hd Hs.
+  assert (Hagg : agg_of t (sort_duties ds) d = true).
+  { rewrite agg_of_selected; [exact Hs|exact C|exact G|apply Hd]. }
+  destruct (recorded_aggregator t ok ds s c d Hd Hagg) as (e & d' & F & A & Hd' & He & Ha').
+  exists e, d'. split; [exact F|]. split; [exact A|]. split; [exact Hd'|]. split.
+  - rewrite <- agg_of_selected with (ds := ds); [exact Ha'|exact C|exact G|apply Hd'].
+  - rewrite He. cbn [mk_sub s_val s_sig]. split; [reflexivity|]. split; [reflexivity|].
+    intro Hc. apply in_to_submit. exists (mk_sub t (sort_duties ds) d').
+    rewrite <- He. apply find_sub_some in F as (Hi & Hsl & _). rewrite Hsl. auto.
+Qed.
+
+Lemma past_duties_do_not_matter : forall t ok past ds cur,
+  (forall d, In d past -> d_slot d <= cur) ->
+  to_submit cur (subscription_info t ok (past ++ ds)) = to_submit cur (subscription_info t ok ds).
+Proof.
+  intros t ok past ds cur H.
+  rewrite (submitted_independent_of_past' t ok (past ++ ds)), (submitted_independent_of_past' t ok ds).
+  rewrite filter_app.
+  replace (filter (fun d => cur <? d_slot d) past) with (@nil duty); [reflexivity|].
+  symmetry. induction past as [|x past IH]; [reflexivity|]. cbn [filter].
+  assert (Hx : d_slot x <= cur) by (apply H; left; reflexivity).
+  destruct (N.ltb_spec cur (d_slot x)); [lia|]. apply IH. intros d Hd. apply H. right. exact Hd.
+Qed.
+
+(* The pinned tree's submission: anything not in the future suppresses the whole call. *)
+Lemma pinned_submit_none_iff : forall cur info,
+  to_submit_pinned cur info = None <-> exists e, In e info /\ s_slot e <= cur.
+Proof.
+  intros cur info. unfold to_submit_pinned.
+  destruct (forallb (fun e => cur <? s_slot e) info) eqn:F.
+  - split; [discriminate|]. intros (e & He & Hc). rewrite forallb_forall in F.
+    apply F in He. apply N.ltb_lt in He. lia.
+  - split; [|reflexivity]. intros _.
+    assert (N : ~ (forallb (fun e => cur <? s_slot e) info = true)) by congruence.
+    rewrite forallb_forall in N.
+    induction info as [|x info IH]; [exfalso; apply N; intros ? []|].
+    destruct (N.ltb_spec cur (s_slot x)) as [L|L].
+    + destruct IH as (e & He & Hc).
+      * cbn [forallb] in F. apply andb_false_iff in F as [F|F]; [|exact F].
+        apply N.ltb_ge in F. lia.
+      * intro Hall. apply N. intros y [<-|Hy]; [apply N.ltb_lt; exact L|apply Hall; exact Hy].
+      * exists e. split; [right; exact He|exact Hc].
+    + exists x. split; [left; reflexivity|exact L].
+Qed.
+
+Lemma pinned_drops_everything : forall t ok ds cur d,
+  In d ds -> ok (d_slot d) = true -> d_slot d <= cur ->
+  to_submit_pinned cur (subscription_info t ok ds) = None.
+Proof.
+  intros t ok ds cur d Hd Hok Hc. apply pinned_submit_none_iff.
+  assert (K : In (d_slot d, d_comm d) (map skey (subscription_info t ok ds))).
+  { apply info_keys. exists d. unfold duty_for. auto. }
+  apply in_map_iff in K as (e & Ke & He). exists e. split; [exact He|].
+  unfold skey in Ke. injection Ke as K1 K2. rewrite K1. exact Hc.
+Qed.
+
+(* =========================================================================================== *)
+(* Part 9.  Independence of the order of the node's answer and of the goroutine schedule.      *)
+From Coq Require Import Sorting.Permutation.
+
+Definition dtriple (d : duty) : N * N * N := (d_slot d, d_comm d, d_val d).
+
+Lemma dle_antisym_triple : forall a b, dle a b -> dle b a -> dtriple a = dtriple b.
+Proof.
+  intros a b H1 H2. unfold dle in *. rewrite duty_leb_iff in H1, H2. unfold dtriple.
+  assert (d_slot a = d_slot b) by lia. assert (d_comm a = d_comm b) by lia. assert (d_val a = d_val b) by lia.
+  congruence.
+Qed.
+
+Lemma sorted_perm_eq : forall l1 l2,
+  StronglySorted dle l1 -> StronglySorted dle l2 -> Permutation l1 l2 -> NoDup (map dtriple l1) -> l1 = l2.
+Proof.
+  induction l1 as [|x l1 IH]; intros l2 S1 S2 P ND.
+  - apply Permutation_nil in P. subst. reflexivity.
+  - destruct l2 as [|y l2]; [apply Permutation_sym, Permutation_nil in P; discriminate|].
+    inversion S1 as [|? ? S1' F1]; subst. inversion S2 as [|? ? S2' F2]; subst.
+    rewrite Forall_forall in F1, F2.
+    assert (Exy : x = y).
+    { assert (Hy : In y (x :: l1)) by (eapply Permutation_in; [apply Permutation_sym, P|left; reflexivity]).
+      assert (Hx : In x (y :: l2)) by (eapply Permutation_in; [exact P|left; reflexivity]).
+      destruct Hy as [Hy|Hy]; [exact Hy|]. destruct Hx as [Hx|Hx]; [symmetry; exact Hx|].
+      apply (nodup_key_unique dtriple (x :: l1)); [exact ND|left; reflexivity|right; exact Hy|].
+      apply dle_antisym_triple; [apply F1; exact Hy|apply F2; exact Hx]. }
+    subst y. f_equal. apply IH; try assumption.
+    + eapply Permutation_cons_inv. exact P.
+    + cbn [map] in ND. inversion ND. assumption.
+Qed.
+
+Lemma insert_duty_perm : forall x l, Permutation (insert_duty x l) (x :: l).
+Proof.
+  intros x l. induction l as [|y l IH]; cbn [insert_duty]; [apply Permutation_refl|].
+  destruct (duty_leb x y); [apply Permutation_refl|].
+  eapply Permutation_trans; [apply perm_skip; exact IH|apply perm_swap].
+Qed.
+
+Lemma sort_duties_perm : forall l, Permutation (sort_duties l) l.
+Proof.
+  intro l. unfold sort_duties. induction l as [|x l IH]; cbn [fold_right]; [apply Permutation_refl|].
+  eapply Permutation_trans; [apply insert_duty_perm|apply perm_skip; exact IH].
+Qed.
+
+(* the node's answer in any order (and whatever an unstable sort does) gives the same information,
+   provided no validator is listed twice for the same slot and committee *)
+Lemma info_order_independent : forall t ok ds ds',
+  Permutation ds ds' -> NoDup (map dtriple ds) ->
+  subscription_info t ok ds = subscription_info t ok ds'.
+Proof.
+  intros t ok ds ds' P ND. unfold subscription_info.
+  assert (E : sort_duties ds = sort_duties ds').
+  { apply sorted_perm_eq; try apply sort_sorted.
+    - eapply Permutation_trans; [apply sort_duties_perm|].
+      eapply Permutation_trans; [exact P|apply Permutation_sym, sort_duties_perm].
+    - eapply Permutation_NoDup; [apply Permutation_sym, Permutation_map, sort_duties_perm|exact ND]. }
+  rewrite E. reflexivity.
+Qed.
+
+(* The goroutines of calculateSubscriptionInfo (one per slot, each walking its validators in
+   order): every schedule -- every interleaving [M'] of the per-slot walks -- records the same
+   entry for every pair.  ([M] is the walk in MergeDuties' order the model uses.) *)
+Lemma filter_filter : forall {A} (f g : A -> bool) l, filter f (filter g l) = filter (fun x => g x && f x) l.
+Proof.
+  intros A f g l. induction l as [|x l IH]; cbn [filter]; [reflexivity|].
+  destruct (g x); cbn [filter andb]; [destruct (f x)|]; rewrite IH; reflexivity.
+Qed.
+
+Lemma info_schedule_independent : forall t L M M' s c,
+  (forall s, filter (same_slot s) M' = filter (same_slot s) M) ->
+  find_sub s c (fold_left (add_member t L) M' []) = find_sub s c (fold_left (add_member t L) M []).
+Proof.
+  intros t L M M' s c H. rewrite !find_fold_add_member. f_equal.
+  assert (E : forall l, filter (same_key s c) l = filter (fun d => d_comm d =? c) (filter (same_slot s) l)).
+  { intro l. rewrite filter_filter. reflexivity. }
+  rewrite (E M'), (E M), H. reflexivity.
+Qed.
